@@ -50,11 +50,13 @@ type Config struct {
 	CTooLongThr int
 }
 
-func (c Config) NSeq() int          { return len(c.Base) }
-func ChanID(seq int) int64          { return int64(1000 + seq - 1) }
-func seqOfChan(id int64) int        { return int(id-1000) + 1 }
-func (e Entry) Start() int          { return e.Pos - e.Cnt }
-func (e Entry) String() string      { return fmt.Sprintf("#%d:%s@%d/%d", e.ID, kindName[e.Kind], e.Pos, e.Cnt) }
+func (c Config) NSeq() int   { return len(c.Base) }
+func ChanID(seq int) int64   { return int64(1000 + seq - 1) }
+func seqOfChan(id int64) int { return int(id-1000) + 1 }
+func (e Entry) Start() int   { return e.Pos - e.Cnt }
+func (e Entry) String() string {
+	return fmt.Sprintf("#%d:%s@%d/%d", e.ID, kindName[e.Kind], e.Pos, e.Cnt)
+}
 func seqName(s int) string {
 	switch {
 	case s < 0:
@@ -175,14 +177,14 @@ type recorder struct {
 	curOp    int
 	activity int
 	// sentinels
-	mainSeen   int            // highest main sentinel number seen
-	mainLens   map[int]bool   // sentinel number -> all queues empty at that time
-	chanSeen   map[int]int    // seq -> number of sentinel callbacks
-	servedTL   map[int]int    // seq -> served too-long responses not yet matched by a callback
-	tlTarget   map[int]int    // seq -> highest pts a reported too-long skipped to
-	pendingTLv map[int][]int  // seq -> targets of served too-long responses awaiting their callback
-	contScope  map[int]bool   // seq -> the previous response asked the client to continue (slice / too long / not final)
-	rootCalls  []Ev           // root API calls (not continuations), in order
+	mainSeen   int           // highest main sentinel number seen
+	mainLens   map[int]bool  // sentinel number -> all queues empty at that time
+	chanSeen   map[int]int   // seq -> number of sentinel callbacks
+	servedTL   map[int]int   // seq -> served too-long responses not yet matched by a callback
+	tlTarget   map[int]int   // seq -> highest pts a reported too-long skipped to
+	pendingTLv map[int][]int // seq -> targets of served too-long responses awaiting their callback
+	contScope  map[int]bool  // seq -> the previous response asked the client to continue (slice / too long / not final)
+	rootCalls  []Ev          // root API calls (not continuations), in order
 }
 
 func newRecorder() *recorder {
@@ -999,9 +1001,20 @@ func CheckAtMostOnce(res Result) []Finding {
 	for _, e := range res.H.Log {
 		if e.Seq >= 0 && e.Cnt > 0 && cnt[e.ID] > 1 {
 			sig := "dup-delivery"
-			if hasSlice(res.Trace, e.Seq) && servedInOthers(res.Trace, e.ID) {
+			back := false
+			last, have := 0, false
+			for _, t := range res.Trace {
+				if t.T == EvPersist && t.Seq == e.Seq {
+					if have && t.Val < last {
+						back = true
+					}
+					last, have = t.Val, true
+				}
+			}
+			switch {
+			case back && hasSlice(res.Trace, e.Seq):
 				sig = "dup-delivery:slice-other-updates-then-intermediate-state-moves-back"
-			} else if servedInOthers(res.Trace, e.ID) {
+			case back:
 				sig = "dup-delivery:diff-other-updates-flush-pending-then-state-moves-back"
 			}
 			out = append(out, Finding{sig, fmt.Sprintf("%s %v reached the handler %d times", seqName(e.Seq), e, cnt[e.ID])})
